@@ -10,15 +10,16 @@ SPEC = dict(
     flow="harness_first",
     modes=["exh", "sample", ""],
     # --n is the number of cases of the 'sample' and random modes; 'exh' enumerates its whole space
-    # (quick: 1877 graphs, thorough (n >= 20000): 38741 graphs)
+    # (quick: 5542 graphs, thorough (n >= 20000): 88413 graphs)
     n=dict(quick=4000, thorough=120000),
     rtol=0.0, atol=0.0,
     rule="mode exh: EVERY graph with <= 2 input bodies (+Ground) and <= 2 joints (quick: (<=2 bodies, <=1 joint) or (1 body, <=2 joints)) "
          "over mass in {0,1} x mustBeBase x 4 behaviourally distinct joint types (weld, pin, ball, fixed-without-loop-weld) x mustBeLoop "
-         "x every ordered pair of distinct bodies incl. Ground as child; mode sample: uniform samples of the same kind of space up to 4 input "
+         "x every ordered pair of bodies incl. Ground as child and parent == child (self-joints: against the documentation but accepted by "
+         "addJoint); mode sample: uniform samples of the same kind of space up to 4 input "
          "bodies / 5 joints (the full <=4 bodies x <=4 joints space has ~1e10 graphs and is sampled, not enumerated); default mode: random "
          "graphs with up to 30 bodies (chains, stars, trees, trees+loops, several components without Ground joint, dense) with massless "
-         "bodies, must-be-loop joints, must-be-base bodies, reversed joints, Ground as child, duplicate connections, shuffled joint order; "
+         "bodies, must-be-loop joints, must-be-base bodies, reversed joints, Ground as child, duplicate connections, occasional self-joints, shuffled joint order; "
          "comparison is exact (every mobilizer, loop constraint, body and joint record); distinct = distinct input graphs",
     partial="clause 'bodies marked as base bodies are honoured' is proved only without massless bodies (base_honoured_partial) and is false "
             "in the implementation otherwise (known finding graph.viaMassless.base_flag); clause 'no massless body with mobilities ends a "
@@ -26,7 +27,11 @@ SPEC = dict(
             "graph.slave.massless_terminal); both clauses are evaluated on the implementation's output for every generated graph",
     assumptions=[
         "body masses are small non-negative integers (exact as doubles); NaN masses are not generated",
-        "joints connect two distinct bodies (documented precondition of addJoint); names never start with '#' (no clash with added joints)",
+        "names never start with '#' (no clash with the names of added base joints)",
+        "clause 'base bodies are honoured' is evaluated only for flagged bodies WITHOUT an input joint to Ground (the header says the flag "
+        "should not be set otherwise; such cases are only counted by the tag obs.mustBeBase_with_ground_joint_not_base)",
+        "'slave welded to its master' = the master/slave bookkeeping (Body::master, Body::slaves, slave mobilizer of the loop joint); the graph "
+        "maker emits no weld constraint object, adding the weld is the caller's job",
         "only generateGraph on a freshly filled object is modelled (deleteBody/deleteJoint/clearGraph are outside the property)",
         "Body::jointsAsChild of slave bodies and the user reference pointers of joint types are not compared",
     ],
